@@ -9,6 +9,12 @@ Case format (tree):  [ckind, [okind, x0, b0, c0], ops]
          | 9 del a.cs | 10 a.cs | 11 session.flush() | 12 session.expire(a)
          keyed dict only (k = key of child arg): 13 a.cs.pop(k) | 14 a.cs.pop(k, None) | 15 a.cs.popitem()
          | 16 del a.cs[k] | 17 a.cs.setdefault(k, c[arg]) | 18 a.cs.update({k_i: c[i] for i in arg}) | 19 a.cs.clear()
+  ckind 3 (list of value objects), 4 and 5 are checked by the oracle only (no Coq model):
+    4  a = Child with x = foreign key to the UNIQUE non-primary-key column Parent.code (value = number of
+       the parent whose code it holds) and b = the many-to-one over it (deferred history: the old value
+       is loaded on demand); ops 0, 3, 4, 11 (= flush + expire), 12
+    5  a = parent whose collection cs is the target of a backref; 20 c[arg].parent = a and
+       21 c[arg].parent = None reach the UNLOADED collection as queued (pending) mutations
 Observation: one [rc, ret, hist x, hist b, hist cs, modified] per operation (coq/orm/HistoryRun.v);
 a flush that raises ends the run.  Values: 0 = None, ints / object numbers positive.
 """
@@ -73,6 +79,9 @@ ANCHORS = [
     ("lib/sqlalchemy/orm/attributes.py", "_CollectionAttributeImpl.set"),
     ("lib/sqlalchemy/orm/attributes.py", "_CollectionAttributeImpl.set_committed_value"),
     ("lib/sqlalchemy/orm/attributes.py", "_CollectionAttributeImpl.get_collection"),
+    ("lib/sqlalchemy/orm/state.py", "PendingCollection"),
+    ("lib/sqlalchemy/orm/attributes.py", "_CollectionAttributeImpl.append"),
+    ("lib/sqlalchemy/orm/attributes.py", "_CollectionAttributeImpl.remove"),
     ("lib/sqlalchemy/orm/state.py", "InstanceState._modified_event"),
     ("lib/sqlalchemy/orm/state.py", "InstanceState._commit"),
     ("lib/sqlalchemy/orm/state.py", "InstanceState._commit_all_states"),
@@ -113,6 +122,7 @@ CKEY = {1: 1, 2: 2, 3: 1, 4: 3}  # children 1 and 3 share a dict key
 SETX, DELX, GETX, SETB, DELB, GETB, CADD, CREM, CREPL, CDEL, CGET, FLUSH, EXPIRE = range(13)
 CPOP, CPOPD, CPOPITEM, CDELKEY, CSETDEFAULT, CUPDATE, CCLEAR = range(13, 20)
 _DICT_OPS = (CPOP, CPOPD, CPOPITEM, CDELKEY, CSETDEFAULT, CUPDATE, CCLEAR)
+BSETP, BUNSET = 20, 21
 
 
 def translate(repo, outdir):
@@ -253,8 +263,38 @@ def _value_object_cases():
             yield {"in": [3, init, [list(a), list(b), [FLUSH, 0]]], "kind": "value-objects", "model": False}
 
 
+def _deferred_cases():
+    """ckind 4: foreign key column edited by hand around a re-assignment of the deferred-history many-to-one"""
+    letters = [[SETX, 2], [SETX, 0], [SETB, 3], [SETB, 2], [SETB, 0], [DELB, 0], [FLUSH, 0], [EXPIRE, 0]]
+    for okind in (1, 2):
+        for x0 in (1, 0):
+            for n in (1, 2, 3):
+                for ops in itertools.product(letters, repeat=n):
+                    yield {"in": [4, [okind, x0, 0, []], [list(o) for o in ops] + [[FLUSH, 0]]],
+                           "kind": "deferred-m2o", "model": False}
+
+
+def _pending_cases():
+    """ckind 5: scalar-side assignments queue up for the unloaded collection, which is then loaded"""
+    # (no expire here: an expired parent cannot be found by the child's backref without SQL - that is
+    # the unloaded-side exception of C37, not a history question)
+    letters = [[BSETP, 3], [BSETP, 1], [BUNSET, 1], [BUNSET, 2], [CGET, 0], [CADD, 4], [CREM, 2], [FLUSH, 0]]
+    for okind in (2, 1):
+        for c0 in ([1, 2], []):
+            for n in (2, 3):
+                for ops in itertools.product(letters, repeat=n):
+                    yield {"in": [5, [okind, 0, 0, c0], [list(o) for o in ops] + [[CGET, 0], [FLUSH, 0]]],
+                           "kind": "pending-backref", "model": False}
+
+
 def gen_cases(rng, tier):
     cases = [{"in": [k, list(i), [list(o) for o in ops]], "kind": "core"} for k, i, ops in _CORE]
+    cases += [
+        {"in": [4, [2, 1, 0, []], [[SETX, 2], [SETB, 3], [FLUSH, 0]]], "kind": "deferred-m2o", "model": False},
+        {"in": [5, [2, 0, 0, [1, 2]], [[BSETP, 3], [BUNSET, 1], [CGET, 0], [FLUSH, 0]]], "kind": "pending-backref", "model": False},
+    ]
+    for fam, n in ((list(_deferred_cases()), 150), (list(_pending_cases()), 200)):
+        cases += fam if tier == "thorough" else rng.sample(fam, n)
     vo = list(_value_object_cases())
     cases += vo if tier == "thorough" else rng.sample(vo, 100)
     fam = list(_families())
@@ -337,18 +377,162 @@ def impl_setup():
             },
         )
         classes[kind] = (A, C)
+    class DP(Base):  # parent addressed through a unique non-primary-key column
+        __tablename__ = "dp"
+        id = Column(Integer, primary_key=True)
+        code = Column(Integer, unique=True, nullable=False)
+
+    class DC(Base):
+        __tablename__ = "dc"
+        id = Column(Integer, primary_key=True)
+        pcode = Column(ForeignKey("dp.code"))
+        parent = relationship(DP)
+
+    class BP(Base):  # bidirectional pair: the collection side receives backref events
+        __tablename__ = "bp"
+        id = Column(Integer, primary_key=True)
+        children = relationship("BC", back_populates="parent", order_by="BC.id")
+
+    class BC(Base):
+        __tablename__ = "bc"
+        id = Column(Integer, primary_key=True)
+        pid = Column(ForeignKey("bp.id"))
+        parent = relationship(BP, back_populates="children")
+
     e = create_engine("sqlite://", poolclass=StaticPool, connect_args={"autocommit": False})
     Base.metadata.create_all(e)
     with Session(e) as s:
+        s.add_all([DP(id=i, code=10 * i) for i in (1, 2, 3)])
+        s.add(BP(id=2))
         s.add_all([B(id=i) for i in range(1, NB + 1)])
         for kind in (0, 1, 2, 3):
             s.add_all([classes[kind][1](id=i, k=CKEY[i]) for i in range(1, NC + 1)])
         s.commit()
-    _ENV.update(B=B, classes=classes, e=e)
+    _ENV.update(B=B, classes=classes, e=e, DP=DP, DC=DC, BP=BP, BC=BC)
 
 
 def _dec(v):
     return None if v == 0 else v
+
+
+def _hist3(st, key, enc):
+    try:
+        h = getattr(st.attrs, key).history
+        return [sorted(enc(v) for v in part) for part in h]
+    except Exception:
+        return [[-9], [], []]
+
+
+def _impl_deferred(case):
+    """ckind 4: many-to-one to a unique non-pk column (deferred history), FK column edited by hand"""
+    import warnings
+
+    from sqlalchemy import exc as sa_exc
+    from sqlalchemy import inspect, text
+    from sqlalchemy.orm import Session
+
+    _ckind, init, ops = case["in"]
+    okind, x0, _b0, _c0 = init
+    DP, DC, e = _ENV["DP"], _ENV["DC"], _ENV["e"]
+    warnings.simplefilter("ignore")
+    with e.connect() as conn:
+        conn.execute(text("delete from dc"))
+        conn.execute(text("insert into dc (id, pcode) values (1, :c)"), {"c": 10 * x0 if x0 else None})
+        conn.commit()
+    out = []
+    with Session(e, autoflush=False) as s:
+        ps = {p.id: p for p in s.query(DP).all()}
+        pidx = {id(p): i for i, p in ps.items()}
+        a = s.get(DC, 1)
+        if okind == 1:
+            a.parent
+        st = inspect(a)
+        for code, arg in ops:
+            rc, ret = 0, []
+            try:
+                if code == SETX:
+                    a.pcode = 10 * arg if arg else None
+                elif code == SETB:
+                    a.parent = ps[arg] if arg else None
+                elif code == DELB:
+                    del a.parent
+                elif code == FLUSH:
+                    s.flush()
+                    r = s.execute(text("select pcode from dc where id=1")).scalar()
+                    v = (r or 0) // 10
+                    ret = [1, v, v, []]
+                    s.expire(a)
+                elif code == EXPIRE:
+                    s.expire(a)
+                else:
+                    raise NotImplementedError(code)
+            except (AttributeError, KeyError, ValueError, sa_exc.InvalidRequestError) as ex:
+                rc = _EXC.get(type(ex).__name__, 4)
+                if code == FLUSH:
+                    out.append([rc, [], [], [], [], 0])
+                    break
+            out.append([rc, ret, _hist3(st, "pcode", lambda v: (v or 0) // 10),
+                        _hist3(st, "parent", lambda v: 0 if v is None else pidx[id(v)]), [[], [], []], int(st.modified)])
+        s.rollback()
+    return out
+
+
+def _impl_pending(case):
+    """ckind 5: backref events from the scalar side reach an unloaded collection (pending mutations)"""
+    import warnings
+
+    from sqlalchemy import exc as sa_exc
+    from sqlalchemy import inspect, text
+    from sqlalchemy.orm import Session
+
+    _ckind, init, ops = case["in"]
+    okind, _x0, _b0, c0 = init
+    BP, BC, e = _ENV["BP"], _ENV["BC"], _ENV["e"]
+    warnings.simplefilter("ignore")
+    with e.connect() as conn:
+        conn.execute(text("delete from bc"))
+        conn.execute(text("delete from bp where id = 1"))
+        conn.execute(text("insert into bp (id) values (1)"))
+        for i in range(1, NC + 1):
+            conn.execute(text("insert into bc (id, pid) values (:i, :p)"), {"i": i, "p": 1 if i in c0 else None})
+        conn.commit()
+    out = []
+    with Session(e, autoflush=False) as s:
+        cs = {c.id: c for c in s.query(BC).order_by(BC.id).all()}
+        cid = {id(c): i for i, c in cs.items()}
+        a = s.get(BP, 1)
+        if okind == 1:
+            a.children
+        st = inspect(a)
+        for code, arg in ops:
+            rc, ret = 0, []
+            try:
+                if code == BSETP:
+                    cs[arg].parent = a
+                elif code == BUNSET:
+                    cs[arg].parent = None
+                elif code == CADD:
+                    a.children.append(cs[arg])
+                elif code == CREM:
+                    a.children.remove(cs[arg])
+                elif code == CGET:
+                    ret = [cid[id(v)] for v in a.children]
+                elif code == FLUSH:
+                    s.flush()
+                    ch = [r[0] for r in s.execute(text("select id from bc where pid=1 order by id")).all()]
+                    ret = [1, 0, 0, ch]
+                elif code == EXPIRE:
+                    s.expire(a)
+                else:
+                    raise NotImplementedError(code)
+            except (AttributeError, KeyError, ValueError, sa_exc.InvalidRequestError) as ex:
+                rc = _EXC.get(type(ex).__name__, 4)
+                if code == FLUSH:
+                    out.append([rc, [], [], [], [], 0])
+                    break
+            out.append([rc, ret, [[], [], []], [[], [], []], _hist3(st, "children", lambda v: cid[id(v)]), int(st.modified)])
+        s.rollback()
+    return out
 
 
 def impl(case):
@@ -360,6 +544,10 @@ def impl(case):
 
     impl_setup()
     ckind, init, ops = case["in"]
+    if ckind == 4:
+        return _impl_deferred(case)
+    if ckind == 5:
+        return _impl_pending(case)
     okind, x0, b0, c0 = init
     A, C = _ENV["classes"][ckind]
     B = _ENV["B"]
@@ -537,7 +725,7 @@ def _coll_apply(kind, cur, code, arg):
     """Python semantics of the collection operation on the members (list of child numbers)"""
     cur = list(cur)
     if code == CADD:
-        if kind in (0, 3):
+        if kind in (0, 3, 5):
             cur.append(arg)
         elif kind == 1:
             if arg not in cur:
@@ -547,7 +735,8 @@ def _coll_apply(kind, cur, code, arg):
             if arg not in cur:
                 cur.append(arg)
     elif code == CREM:
-        cur.remove(arg)
+        if arg in cur:
+            cur.remove(arg)
     elif code == CREPL:
         cur = list(arg)
     elif code in (CPOP, CPOPD, CDELKEY):
@@ -574,11 +763,14 @@ def oracle(case, obs):
     db = {"x": x0 if persistent else 0, "b": b0 if persistent else 0, "c": sorted(c0) if persistent else []}
     # per attribute: loaded (lower bound), dirty, base candidates, cur (value | _MISSING | None = as in db)
     st = {}
+    if kind == 4:
+        db["b"] = db["x"]  # the many-to-one follows the foreign key x (both are numbers of parents)
     for k in "xbc":
         loaded = okind == 1 or (okind == 2 and k == "x")
         st[k] = {"loaded": loaded, "dirty": False, "bases": None, "cur": None, "cdel": False}
     prev = {"x": ([], []), "b": ([], []), "c": ([], [])}
     delx_persistent_missing = False
+    truth = set(c0)  # kind 5: the children whose own parent attribute points at a
 
     def view(k):
         c = st[k]["cur"]
@@ -613,6 +805,9 @@ def oracle(case, obs):
         if rc != 0:
             for k in "xbc":
                 got = (sorted(hs[k][0]), sorted(hs[k][2]))
+                if kind == 5 and k == "c" and not st["c"]["loaded"]:
+                    prev[k] = got  # the failed remove() loaded the collection: queued changes become visible
+                    continue
                 if got != (sorted(prev[k][0]), sorted(prev[k][1])):
                     tag = "[failed-delete] " if (code == DELX and k == "x" and rc == 1) else ""
                     if k == "c" and st["c"]["cdel"]:
@@ -641,6 +836,8 @@ def oracle(case, obs):
             new = _coll_apply(kind, cur, code, arg)
             if code != CREPL and persistent and not st["c"]["dirty"]:
                 st["c"]["loaded"] = True  # a.cs was read
+            if kind == 5:
+                truth = (truth | {arg}) if code == CADD else (truth - {arg})
             if kind == 1 and code == CADD and arg in cur:
                 pass  # adding a present member: no change
             elif code in _DICT_OPS and new == cur:
@@ -652,8 +849,16 @@ def oracle(case, obs):
                 if view("c") not in (_MISSING, []) or st["c"]["dirty"]:
                     st["c"]["cdel"] = True
                     mutate("c", _MISSING)
+        elif code in (BSETP, BUNSET):
+            truth = (truth | {arg}) if code == BSETP else (truth - {arg})
+            # the scalar side of a bidirectional pair is assigned: a gains / loses the child
+            cur = view("c")
+            cur = [] if cur is _MISSING else list(cur)
+            new = (cur + [arg] if arg not in cur else cur) if code == BSETP else [o_ for o_ in cur if o_ != arg]
+            if new != cur:
+                mutate("c", new)
         elif code == CGET:
-            if not st["c"]["dirty"] and persistent:
+            if (not st["c"]["dirty"] or kind == 5) and persistent:
                 st["c"]["loaded"] = True
         elif code == EXPIRE:
             for k in "xbc":
@@ -666,6 +871,15 @@ def oracle(case, obs):
                     v = [] if k == "c" else 0
                 want[k] = sorted(set(v)) if k == "c" else v
             got = {"x": o[1][1], "b": o[1][2], "c": sorted(o[1][3])}
+            if kind == 5:
+                want["c"] = sorted(truth)  # the children's foreign keys are written from their own side
+            if kind == 4:
+                # one column behind both attributes: an assigned relationship decides, else the column
+                if st["b"]["dirty"]:
+                    want["x"] = got["x"] if (st["x"]["dirty"] and got["x"] == want["x"]) else want["b"]
+                    want["b"] = want["x"]
+                else:
+                    want["b"] = want["x"]
             for k in "xbc":
                 if got[k] != want[k]:
                     tag = "[collection-del] " if (k == "c" and st["c"]["cdel"]) else ""
@@ -679,13 +893,20 @@ def oracle(case, obs):
                 keep = a["cur"] if (a["dirty"] and a["cur"] is not _MISSING) else None
                 if a["dirty"] and a["cur"] is _MISSING:
                     present = False
+                if kind == 5 and k == "c":
+                    present = a["loaded"]  # queued mutations do not load the collection
                 # the object keeps its in-memory value (a list may hold duplicates the database cannot)
                 st[k] = {"loaded": present, "dirty": False, "bases": None, "cur": keep, "cdel": False}
+                if kind == 4:  # this flush is followed by an expire
+                    st[k] = {"loaded": False, "dirty": False, "bases": None, "cur": None, "cdel": False}
         delx_persistent_missing = persistent and st["x"]["dirty"] and st["x"]["cur"] is _MISSING
         # ---- the histories ----
         for k in "xbc":
             a = st[k]
             got = (sorted(hs[k][0]), sorted(hs[k][2]))
+            if kind == 4 and k == "b" and st["x"]["dirty"] and "U" in st["x"]["bases"]:
+                prev[k] = got  # the foreign key was overwritten while expired: the old parent is unknowable
+                continue
             if not a["dirty"]:
                 allowed = [([], [])]
             else:
@@ -695,6 +916,13 @@ def oracle(case, obs):
                         allowed += _diff_coll(bse, a["cur"])
                     else:
                         allowed += [(sorted(x), sorted(y)) for x, y in _diff_scalar(bse, a["cur"], k == "b")]
+            if kind == 5 and k == "c" and not a["loaded"]:
+                # AttributeState.history never loads: an unloaded collection reports nothing, whatever
+                # is queued for it; the net difference is due as soon as the collection is loaded
+                allowed.append(([], []))
+                if got == ([], []) and not hs[k][1]:
+                    prev[k] = got
+                    continue
             if got not in allowed:
                 tag = ""
                 if k == "c" and a["cdel"]:
